@@ -142,25 +142,30 @@ def gen_malformed(ctx):
 
 def decode_file(fmt, path, opts):
     """independent decoding of a destination file -> list of comparable trees"""
+    enc = opts.get("enc", "utf-8")
     with open(path, "rb") as stream:
         data = stream.read()
-    if fmt == "export":
-        return [(c["sid"], M.canon(c["root"], ("w", "p", "m", "e"), ("l", "e"))) for c in CT.decode_export(data.decode("utf-8"), v4=False)]
     if fmt == "tigerxml":
         return [(c["sid"], M.canon(c["root"], ("w", "p", "m", "e", "lem"), ("l", "e"))) for c in CT.decode_tigerxml(data)]
+    try:
+        text = data.decode(enc)
+    except UnicodeDecodeError as exc:
+        raise CT.DecodeError("file is not %s: %s" % (enc, exc))
+    if fmt == "export":
+        return [(c["sid"], M.canon(c["root"], ("w", "p", "m", "e"), ("l", "e"))) for c in CT.decode_export(text, v4=False)]
     if fmt in ("brackets", "discobrackets"):
-        return [(None, M.canon(r, ("w", "p"), ("l",))) for r in CT.decode_brackets(data.decode("utf-8"), disco=(fmt == "discobrackets"))]
+        return [(None, M.canon(r, ("w", "p"), ("l",))) for r in CT.decode_brackets(text, disco=(fmt == "discobrackets"))]
     if fmt == "terminals":
-        lines = data.decode("utf-8").split("\n")
+        lines = text.split("\n")
         return [(None, tuple(l.split())) for l in lines[:-1]]
     raise AssertionError(fmt)
 
 
-def own_reader(fmt, path):
+def own_reader(fmt, path, enc="utf-8"):
     if fmt == "terminals":
         return None
     with contextlib.redirect_stdout(io.StringIO()), contextlib.redirect_stderr(io.StringIO()):
-        return list(getattr(treeinput, fmt)(path, "utf-8", quiet=True))
+        return list(getattr(treeinput, fmt)(path, enc, quiet=True))
 
 
 def check_cli(case):
@@ -170,10 +175,12 @@ def check_cli(case):
     prefix = "C17/cli-" + fmt
     try:
         src = os.path.join(tmpdir, "in.export")
-        with open(src, "w", encoding="utf-8") as stream:
+        senc, denc = case.get("src_enc", "utf-8"), case.get("dest_enc", "utf-8")
+        with open(src, "w", encoding=senc) as stream:
             stream.write(CT.encode_export(case["trees"]))
         base = ["transform", src]
-        tail = ["--src-format", "export", "--dest-format", fmt]
+        tail = ["--src-format", "export", "--dest-format", fmt, "--src-enc", senc, "--dest-enc", denc]
+        dopts = {"enc": denc}
         kept = list(case["trees"])
         if case.get("filter"):
             op, val = case["filter"]
@@ -185,7 +192,7 @@ def check_cli(case):
         if res.code != 0:
             raise violation(prefix + "/unsplit-exit-status", "exit %d: %s" % (res.code, res.err[-300:]))
         try:
-            unsplit = decode_file(fmt, whole, {})
+            unsplit = decode_file(fmt, whole, dopts)
         except CT.DecodeError as exc:
             raise violation(prefix + "/unsplit-undecodable", str(exc))
         if len(unsplit) != len(kept):
@@ -206,13 +213,13 @@ def check_cli(case):
         for i, size in enumerate(exp):
             path = "%s.%d" % (dest, i)
             try:
-                part = decode_file(fmt, path, {})
+                part = decode_file(fmt, path, dopts)
             except CT.DecodeError as exc:
                 raise violation(prefix + "/part-not-a-complete-file", "part %d (%d trees): %s" % (i, size, exc))
             if len(part) != size:
                 raise violation(prefix + "/part-size", "part %d has %d trees, specification %r of %d trees gives %r" % (i, len(part), spec, len(kept), exp))
             try:
-                own = own_reader(fmt, path)
+                own = own_reader(fmt, path, denc)
             except Exception as exc:  # noqa
                 raise violation(prefix + "/part-rejected-by-own-reader", "part %d: %s: %s" % (i, type(exc).__name__, exc))
             if own is not None and len(own) != size:
@@ -231,7 +238,7 @@ def check_cli(case):
 @st.composite
 def cli_case(draw):
     fmt = draw(st.sampled_from(["export", "brackets", "discobrackets", "tigerxml", "terminals", "tigerxml"]))
-    tree = S.tree_model(max_tokens=5, disc=0.0 if fmt == "brackets" else 0.4, words=st.sampled_from(["a", "b", "Haus", "ä", "x&y"]),
+    tree = S.tree_model(max_tokens=5, disc=0.0 if fmt == "brackets" else 0.4, words=st.sampled_from(["a", "b", "Haus", "ä", "x&y", "Mädchen"]),
                         labels=st.sampled_from(["S", "NP"]), pos=st.sampled_from(["NN", "VB"]))
     trees = draw(st.lists(tree, min_size=0, max_size=7))
     for i, t in enumerate(trees):
@@ -239,7 +246,8 @@ def cli_case(draw):
     items = st.one_of(st.sampled_from(["rest", "0#", "1#", "2#", "50%", "29%", "100%", "34%", "0%"]))
     spec = "_".join(draw(st.lists(items, min_size=1, max_size=3)))
     filt = draw(st.sampled_from([None, None, ("lt", 3), ("gt", 3), ("eq", 2)]))
-    return {"fmt": fmt, "trees": trees, "spec": spec, "filter": filt}
+    return {"fmt": fmt, "trees": trees, "spec": spec, "filter": filt, "src_enc": draw(st.sampled_from(["utf-8", "utf-8", "latin-1"])),
+            "dest_enc": draw(st.sampled_from(["utf-8", "utf-8", "latin-1", "utf-16"]))}
 
 
 def gen_cli(ctx):
